@@ -20,10 +20,18 @@ package pkgload
 // ---- C14: the context parameters of a function are exactly the `context NAME` settings of that
 // ---- function's own doc comment (nothing leaks from another declaration of the file or package) ----
 //@ func PackageLoader.localConfig
-//@   props C14
+//@   props C14 C19 C06
 //@   loop 3 invariant forall k string :: has(contexts, k) ==> parse.DeclaresContext(lines, k)
 //@   loop 3 invariant forall j int :: 0 <= j && j < idx && parse.IsContextLine(lines[j]) ==> has(contexts, parse.ContextName(lines[j]))
+//@   loop 1 invariant forall k string :: has(g.locals, k) == old(has(g.locals, k))
+//@   loop 2 invariant forall k string :: has(g.locals, k) == old(has(g.locals, k))
+//@   loop 3 invariant forall k string :: has(g.locals, k) == old(has(g.locals, k))
 //@   assigns map(g.locals)
+// the per-package cache is keyed by the package PATH (two packages may share a name)
+//@   ensures has(g.locals, pkg.PkgPath)
+//@   ensures old(has(g.locals, pkg.PkgPath)) && old(has(g.locals[pkg.PkgPath], name)) ==> same(result, old(g.locals[pkg.PkgPath][name]))
+//@   ensures old(has(g.locals, pkg.PkgPath)) && !old(has(g.locals[pkg.PkgPath], name)) ==> same(result, method.EmptyLocalOpts)
+//@   ensures forall k string :: k != pkg.PkgPath ==> has(g.locals, k) == old(has(g.locals, k))
 
 // ---- C14: the per-use parse options reach method.Parse unchanged, together with the local options of
 // ---- exactly the function that is being parsed; nothing but the loader's own cache is written ----
@@ -50,3 +58,12 @@ package pkgload
 
 //@ func PackageLoader.GetUncheckedPkg
 //@   pure
+
+// C06/C14: for a pattern, every matching function is parsed with the per-use options and with the local
+// settings of THAT function (looked up under the name the object was looked up with)
+//@ func PackageLoader.GetMatching
+//@   props C06 C14
+//@   assigns map(g.locals)
+//@   at@C06 call g.localConfig#1 assert arg0 == pkg && obj == scope.Lookup(arg1)
+//@   at@C14 call method.Parse#1 assert arg1 == opts
+//@   at@C14 call g.getOneParsed#1 assert arg2 == opts && arg1 == name
